@@ -52,22 +52,27 @@ def run(ctx, rng, n):
     ss = streams(rng, n)
     cases = []; plan = []
     for i, (ty, data, level, kind) in enumerate(ss):
-        lines = []; ops = [o for o in OPS if o[4] == level]
-        for k, (op, mode, prog, typed, _) in enumerate(ops):
+        lines = []; ops = [(o, -1) for o in OPS if o[4] == level]
+        if kind == "full" and i % 2 == 0:
+            # the readers once more under an allocation schedule: attempt number j fails
+            ops += [(o, j) for o in OPS if o[4] == level and o[1] == "C" for j in (0, 1, 2, 3)]
+        for k, ((op, mode, prog, typed, _), fail) in enumerate(ops):
             h = k + 1
             lines.append("in %d %s" % (h, hx(data)))
-            if op == "rva": lines.append("rva %d 1" % h)
-            elif op == "robja": lines.append("robja %d 2 %d" % (h, ty))
+            pre = "allocfail %d" % fail if fail >= 0 else "nallocs"
+            lines.append(pre)
+            if op == "rva": lines.append("rva %d %d" % (h, 10 + h))
+            elif op == "robja": lines.append("robja %d %d %d" % (h, 10 + h, ty))
             elif typed: lines.append("%s %d %d" % (op, h, ty))
             else: lines.append("%s %d" % (op, h))
             lines.append("pos %d" % h)
-            plan.append((i, k, op, mode, prog, typed))
+            plan.append((i, k, op, mode, prog, typed, fail))
         cases.append(Case("e%d" % i, lines, compare=False))
     res = vlib.run_cases(cases, ctx["harness"], None)
     coq = os.path.join(vlib.V, "coq")
     d = tempfile.mkdtemp(prefix="impdiff-", dir=vlib.CACHE)
     evals = []
-    for (i, k, op, mode, prog, typed) in plan:
+    for (i, k, op, mode, prog, typed, fail) in plan:
         ty, data = ss[i][0], ss[i][1]
         sl = "[%s]" % "; ".join(str(b) for b in data)
         if mode == "E":
@@ -75,7 +80,7 @@ def run(ctx, rng, n):
             evals.append("outE (callE prog_env %d %s %s %s 0)" % (FUEL, prog, args, sl))
         else:
             args = "[tok; VInt %d; tok]" % ty if typed else "[tok; tok]"
-            evals.append("outC (callC prog_env %d %s %s [] (-1) %s [])" % (FUEL, prog, args, sl))
+            evals.append("outC (callC prog_env %d %s %s [] (%d) %s [])" % (FUEL, prog, args, fail, sl))
     src = """From Sbdf Require Import ImpCall Gen.Prog ImpBase.
 From Coq Require Import List ZArith. Import ListNotations.
 Local Open Scope Z_scope.
@@ -97,20 +102,21 @@ Eval vm_compute in [%s].
     pairs = re.findall(r"\((-?\d+),(-?\d+)\)", re.sub(r"\s|%Z", "", r.stdout))
     if len(pairs) != len(plan):
         return ["unexpected output of the Coq run (%d results for %d runs)" % (len(pairs), len(plan))], cov
-    for (i, k, op, mode, prog, typed), (st, rem) in zip(plan, pairs):
+    for (i, k, op, mode, prog, typed, fail), (st, rem) in zip(plan, pairs):
         st, rem = int(st), int(rem)
         ty, data = ss[i][0], ss[i][1]
         c, _ = res.get("e%d" % i, (None, None))
         if c is None or c.crash:
             diffs.append("stream %s: the C side crashed: %s" % (hx(data)[:60], c.crash if c else "no output")); continue
-        cst = c.val(3 * k + 2); cpos = c.val(3 * k + 3)
+        cst = c.val(4 * k + 3); cpos = c.val(4 * k + 4)
         if cst is None or cpos is None: continue
         cst = int(cst.split()[0]); cpos = int(cpos)
         if st in (1000, 2000):      # SFault (the bit-array branch of the reader) / out of fuel: nothing to compare
             cov["imp_not_comparable"] += 1; continue
         cov["imp_compared"] += 1
+        if fail >= 0: cov["imp_alloc_schedules"] = cov.get("imp_alloc_schedules", 0) + 1
         if st != cst:
-            diffs.append("%s on %s (type %d): C status %d, translated program %d" % (op, hx(data)[:80], ty, cst, st)); continue
+            diffs.append("%s on %s (type %d%s): C status %d, translated program %d" % (op, hx(data)[:80], ty, ", allocation %d fails" % fail if fail >= 0 else "", cst, st)); continue
         ipos = len(data) - rem
         if cst == 0 and (cpos != ipos) and not (cpos > len(data) and rem == 0):
             diffs.append("%s on %s (type %d): C position %d, translated program %d" % (op, hx(data)[:80], ty, cpos, ipos))
